@@ -29,7 +29,7 @@ Theorem C14_rect_constructors : forall W src nc_arg na_arg xc xq xw e,
 Proof. exact init_rect. Qed.
 Print Assumptions C14_rect_constructors.
 
-(* ---- preserved by EVERY operation of the alphabet (31 letters, incl. append / extend / extend by an ensemble,
+(* ---- preserved by EVERY operation of the alphabet (32 letters, incl. append / extend / extend by an ensemble,
         collective transforms, setters, writes through a conformer, the io round trip) ... *)
 Theorem C14_rect_step : forall W o W' w, StoreRect W -> step W o = Ok W' w -> StoreRect W'.
 Proof. exact step_rect. Qed.
